@@ -31,7 +31,7 @@ func (p *c12) Exhaustive() bool { return true }
 
 // template names; "" kinds are inline sources run through the string loader
 var c12Names = []string{"t.html", "t.html.twig", "t.js", "t.js.twig", "t.css", "t.txt", "t", "t.twig", "t.xml", "t.foo.twig", "t.url", "t.html_attr",
-	"a.b/c", "dir.d/page", "t.HTML", "t.json", "t.txt.twig", "inline:plain", "inline:dot", "inline:dotmid"}
+	"a.b/c", "dir.d/page", "t.HTML", "t.json", "t.txt.twig", "inline:plain", "inline:dot", "inline:dotmid", "inline:ends-txt", "inline:ends-js", "inline:ends-css-twig"}
 
 var c12Payloads = []string{
 	"<script>alert(1)</script>", "' onmouseover='alert(1)", "\"", "&amp; & &lt;", "</style><b>", "a b", "javascript:alert(1)//", "é😀<i>", "plain", "x;y(z)=1/2\\3\n4",
@@ -45,6 +45,9 @@ var escFns = map[string]func(string) string{"html": escape.HTML, "html_attr": es
 // expectedType implements the statement: the escaper registered under the name's
 // extension (".twig" stripped) when there is one, nothing for txt, html otherwise.
 func expectedType(name string) string {
+	if hasOpenDelim(name) {
+		return "html" // an inline source (the string loader names a template after its text): no file name, no extension
+	}
 	n := strings.TrimSuffix(name, ".twig")
 	i := strings.LastIndex(n, ".")
 	if i < 0 {
@@ -332,6 +335,9 @@ func c12helper(main string, variant int) string {
 
 var c12Inline = map[string]string{"inline:plain": "", "inline:dot": "Version 1.2 of this. ", "inline:dotmid": "see a.js or "}
 
+// c12InlineTail: text after the construct. An inline source is no file name, whatever its last characters are.
+var c12InlineTail = map[string]string{"inline:ends-txt": " see notes.txt", "inline:ends-js": " load app.js", "inline:ends-css-twig": " style.css.twig"}
+
 type c12case struct {
 	main      string
 	construct int
@@ -434,7 +440,7 @@ func (p *c12) templates(c c12case) (string, map[string]string, []c12site) {
 	tpls, sites := con.build(main, helper)
 	if c.inline {
 		// the main template's source is its own name under the string loader
-		src := c12Inline[c.main] + tpls["INLINE"]
+		src := c12Inline[c.main] + tpls["INLINE"] + c12InlineTail[c.main]
 		delete(tpls, "INLINE")
 		for k := range sites {
 			if sites[k].tpl == "INLINE" {
@@ -606,7 +612,7 @@ func (p *c12) Run(i int) (res fw.Result) {
 }
 
 func (p *c12) Rule() string {
-	return fmt.Sprintf("exhaustive product for single-construct templates: %d template names (html, html.twig, js, js.twig, css, txt, txt.twig, no extension, .twig only, unknown extensions xml/foo/json/HTML, url, html_attr, names with a dot in a directory part, and inline sources through the string loader with and without dots) x %d constructs (top level, if/else/elseif, for, for-else, for..if, loop value, block, nested, overridden/inherited block, three-level chain, parent(), block(), include, include-with-only, embed with override, a capture at the top level of an extending template used raw inside a block, set-capture, filter section, macro, imported macro, ternary, concatenation, interpolation, via set, attribute access, filter results, raw, explicit escape) x helper template of the same / a different content type x %d payloads x 9 value wrappers (plain, safe for the same type, safe for another type, nested safe for other types, safe for another type while a value derived from it was marked safe for this type, named int / bool / float types and a struct whose String method returns the payload); random payloads over the significant alphabet on top; plus seeded random multi-template programs (every tag, inheritance, include/embed/use/import, macros, captures, filter sections, all built-in filters except raw) whose own text and string literals are inert while every context string is a hostile payload - their whole output must be HTML-inert. Every print is bracketed by inert sentinels; template literal text uses an inert alphabet. Oracles: (exactness) each directly printed segment equals escaper(value) applied once for the content type of the template that contains the print (statement's rule: registered extension, txt = none, html otherwise), raw and same-type-safe values unchanged, explicit escape = implicit; (safety) in single-type cases the whole output contains no character significant for that type outside escape sequences - this also covers prints routed through captures, filter sections, macros, block() and parent(). Non-trivial = the payload contains a character the resolved escaper changes; distinct = (name, construct, helper variant, payload, wrapper).", len(c12Names), len(c12Constructs), len(c12Payloads))
+	return fmt.Sprintf("exhaustive product for single-construct templates: %d template names (html, html.twig, js, js.twig, css, txt, txt.twig, no extension, .twig only, unknown extensions xml/foo/json/HTML, url, html_attr, names with a dot in a directory part, and inline sources through the string loader with and without dots, also ending in '.txt', '.js' or '.css.twig') x %d constructs (top level, if/else/elseif, for, for-else, for..if, loop value, block, nested, overridden/inherited block, three-level chain, parent(), block(), include, include-with-only, embed with override, a capture at the top level of an extending template used raw inside a block, set-capture, filter section, macro, imported macro, ternary, concatenation, interpolation, via set, attribute access, filter results, raw, explicit escape) x helper template of the same / a different content type x %d payloads x 9 value wrappers (plain, safe for the same type, safe for another type, nested safe for other types, safe for another type while a value derived from it was marked safe for this type, named int / bool / float types and a struct whose String method returns the payload); random payloads over the significant alphabet on top; plus seeded random multi-template programs (every tag, inheritance, include/embed/use/import, macros, captures, filter sections, all built-in filters except raw) whose own text and string literals are inert while every context string is a hostile payload - their whole output must be HTML-inert. Every print is bracketed by inert sentinels; template literal text uses an inert alphabet. Oracles: (exactness) each directly printed segment equals escaper(value) applied once for the content type of the template that contains the print (statement's rule: registered extension, txt = none, html otherwise), raw and same-type-safe values unchanged, explicit escape = implicit; (safety) in single-type cases the whole output contains no character significant for that type outside escape sequences - this also covers prints routed through captures, filter sections, macros, block() and parent(). Non-trivial = the payload contains a character the resolved escaper changes; distinct = (name, construct, helper variant, payload, wrapper).", len(c12Names), len(c12Constructs), len(c12Payloads))
 }
 
 func (p *c12) Assumptions() []string {
